@@ -12,7 +12,7 @@
 (*   - the decrement up to (if it was the last) the removal of the root,   *)
 (*   - the removal of the root.                                            *)
 (* Line kinds: gate cd env write probe childenv bg fail skip stop ro defer *)
-(* nopath condexec bgfail wait.  Only bg / defer / fail / wait / skip /    *)
+(* nopath condexec bgfail wait bgnamed waitnamed.  Only bg / defer / fail / wait / skip /    *)
 (* stop / gate matter                                                      *)
 (* for the shared state; the others act on the script's private state.     *)
 (***************************************************************************)
